@@ -352,7 +352,7 @@ func checkC20(seed uint64, replayDir, corpusDir string) (map[string]any, int) {
 		metas := []meta{}
 		for i := start; i < start+batch && i < n; i++ {
 			r := base.fork()
-			c := genStream(pick(r, []string{"wellformed", "segments", "targets", "rollouts", "bigseg", "prereqs", "bucketdense"}), r, fmt.Sprintf("C20/%d/%d", seed, i))
+			c := genStream(pick(r, []string{"wellformed", "segments", "targets", "rollouts", "bigseg", "prereqs", "bucketdense", "operators", "dateops"}), r, fmt.Sprintf("C20/%d/%d", seed, i))
 			if c.Ctx.T == "invalid" {
 				continue
 			}
